@@ -806,6 +806,14 @@ func init() {
 		}
 	}
 	props["C17"] = func(x *Ctx) {
+		x.aliasedViews(allSS)
+		for _, h := range []int{31, 32, 33, 40} {
+			head := strings.Repeat("-", h)
+			for _, tl := range [][2]string{{"a", "A"}, {"K", "k"}, {"1a2", "1A2"}} {
+				x.selfConsistent([]byte("xx"+head+tl[1]), []byte(head+tl[0]))
+				x.selfConsistent([]byte(head+tl[0]+" "+head+tl[1]), []byte(head+tl[0]))
+			}
+		}
 		n := 10000 * x.scale
 		ratioCases(true, func(s, t []byte) { x.selfConsistent(s, t) })
 		x.specialPairs(func(s, t []byte) { x.selfConsistent(s, t) })
